@@ -10,7 +10,19 @@ Binding C (model extraction) + monitors on the real code:
  3. harness/cmd/c20, built normally and with -race, stresses the real objects (real Executer adding/removing real
     blocks) under a watchdog; deadlocks (goroutine dump), race reports, lost/duplicated items are OBSERVATIONS.
 Verdict: observed and predicted -> violation with the site key; observed only -> violation "unmodelled:<key>";
-predicted only -> listed under predicted_not_reproduced (no verdict)."""
+predicted only -> listed under predicted_not_reproduced (no verdict).
+
+Scenarios of the stress driver (harness/cmd/c20): chain-tip / chain-read (block cache 515), chain-tip-evict /
+chain-read-evict (block cache 8: eviction, database path of every lookup, removal bursts that drain the cache; saveTemp
+alternates and a reader follows the temporary-block table; tip readers Encode() the tip), bulk (input domain BULK_SIZES:
+empty / single / 103 / 515 / 600 elements, missing elements anywhere, duplicates, from == to, GetLastNBlocks), serve (the
+three sync RPC handlers called by 4 clients while the chain changes), sync, pool (overlapping Select calls whose results
+are read outside the lock and re-read later, Get / Has against the lists being sorted), emitter (Publish / Emit /
+Subscribe / On / Unsubscribe / UnsubscribeAll / repeated Close, 300 rounds released at the same instant), diffdb (Range in
+the owners' op mix; RestoreSnapshot / Commit / Range concurrently with readers and writers).
+Observed violations always win over set-up / vacuity guards; a run in which a new sub-scenario never happened is
+inconclusive (GUARDS).  VERIF_EXPERIMENTAL=1 adds the sub-checks that are red on the unchanged tree (cache reload under
+readers, getBlocksFromId for a tip that is being removed)."""
 import json, os, re
 from concurrent.futures import ThreadPoolExecutor
 import common
@@ -18,7 +30,22 @@ from common import Inconclusive, finish, log
 
 LEVEL = "model_checking"
 LOCK_OPS = ("Lock", "Unlock", "RLock", "RUnlock")
-SCENARIOS = ["chain-tip", "chain-read", "bulk", "sync", "pool", "emitter", "diffdb"]
+SCENARIOS = ["chain-tip", "chain-read", "chain-tip-evict", "chain-read-evict", "bulk", "serve", "sync", "pool", "emitter", "diffdb"]
+# input domain of the bulk lookups (number of requested elements; for ranges the length)
+BULK_SIZES = dict(quick=[0, 1, 2, 9, 33, 64, 100, 103, 104, 515, 600], thorough=[0, 1, 2, 9, 33, 64, 100, 101, 103, 104, 200, 201, 515, 516, 600, 1030])
+# non-vacuity: (scenario, counter of the stress driver) -> minimum over the whole run; below it the run is inconclusive
+GUARDS = {
+    ("chain-tip", "encode_calls"): 100, ("chain-tip", "savetemp_removals"): 1, ("chain-tip", "temp_reads"): 1, ("chain-tip", "temp_blocks_seen"): 1,
+    ("chain-read", "lastn_calls"): 10,
+    ("chain-tip-evict", "deep_removals"): 1, ("chain-tip-evict", "evictions"): 1, ("chain-tip-evict", "encode_calls"): 100,
+    ("chain-read-evict", "deep_removals"): 1, ("chain-read-evict", "evictions"): 1, ("chain-read-evict", "db_path_items"): 100,
+    ("bulk", "db_path_items"): 1, ("bulk", "lastn_calls"): 1,
+    ("serve", "calls:getLastBlock"): 10, ("serve", "calls:getHighestCommonBlock"): 10, ("serve", "calls:getBlocksFromId"): 10,
+    ("pool", "select_rereads"): 10, ("pool", "overlapping_selects"): 1, ("pool", "select_below_stored_range"): 1, ("pool", "get_checks"): 10,
+    ("emitter", "simultaneous_rounds"): 100, ("emitter", "emit_calls"): 1, ("emitter", "on_calls"): 1, ("emitter", "unsubscribe_all_calls"): 1,
+    ("emitter", "close_calls"): 2,
+    ("diffdb", "range_calls"): 1, ("diffdb", "restore_cycles"): 1, ("diffdb", "commit_calls"): 1,
+}
 SUBSCRIBER = dict(name="live-subscriber", ops=[dict(op="RecvLoop", obj="chan:out", fn="subscriber", line=0)], unknown=[])
 
 
@@ -42,6 +69,11 @@ def extract(ctx):
 def one_line(pr):
     s = " ".join("%s(%s)" % (o["op"], o["obj"].split(".")[-1] if o["op"] not in ("Spawn",) else o["obj"].split("$")[-1]) for o in pr["ops"])
     return s + ("  UNKNOWN: %s" % "; ".join(pr["unknown"]) if pr["unknown"] else "")
+
+
+def started(child):
+    """the child program as a process of a scenario that contains its parent: it begins when the parent's go statement ran"""
+    return dict(child, ops=[dict(op="Start", obj=child["name"], fn=method_of(child["name"]), line=child.get("line", 0))] + child["ops"])
 
 
 def seq(progs, label):
@@ -74,19 +106,35 @@ def scenarios(ext, tier):
         child = g("DataAccess.%s$go0" % m)
         n = k if child.get("multi") else 1
         scn.append(("bulk:" + m, [child] * n + [dawriter]))
+    # a block read from the database: the second fan-out (one goroutine per transaction) below GetBlock / GetBlockByHeight
+    scn.append(("db-block", [g("DataAccess.GetBlockByHeight$go0")] * k + [g("DataAccess.GetBlock$go0"), dawriter]))
     child = g("blockSyncer.Sync$go0")
     scn.append(("sync-collector", [child] * (k if child.get("multi") else 1)))
+    # the P2P handlers of the sync package: getHighestCommonBlock with its own goroutines, wait group and result channel
+    # (parent + children + closer); getBlocksFromId / getLastBlock as what they call in DataAccess while the chain changes
+    hc = "Syncer.HandleRPCEndpointGetHighestCommonBlock"
+    kids = sorted(n for n in P if n.startswith(hc + "$go"))
+    procs = [g(hc)]
+    for n in kids:
+        procs += [started(P[n])] * (k if P[n].get("multi") else 1)
+    scn.append(("serve:getHighestCommonBlock", procs))
+    scn.append(("serve:getBlocksFromId", [seq([g("Syncer.HandleRPCEndpointGetLastBlock"), g("Chain.LastBlock"), g("Syncer.HandleRPCEndpointGetBlocksFromID"),
+                                               g("DataAccess.GetBlockHeader"), g("Chain.LastBlock")], "getLastBlock;LastBlock;getBlocksFromId;GetBlockHeader;LastBlock")]
+                + [g("DataAccess.GetBlocksBetweenHeight$go0")] * (k - 1) + [dawriter]))
     scn.append(("pool", [g("Pool.Add"), g("Pool.Add"), seq([g("Pool.Select"), g("Pool.Upgrade")], "Pool.Select;Upgrade"), g("Pool.Cleanup"),
                          seq([g("Pool.Has"), g("Pool.Get"), g("Pool.Size")], "Pool.Has;Get;Size")]))
-    em = [g("EventEmitter.Publish"), g("EventEmitter.Subscribe"), g("EventEmitter.Unsubscribe"), g("EventEmitter.Close"), SUBSCRIBER]
+    em = [seq([g("EventEmitter.Publish"), g("EventEmitter.Emit")], "EventEmitter.Publish;Emit"), seq([g("EventEmitter.Subscribe"), g("EventEmitter.On")], "EventEmitter.Subscribe;On"),
+          seq([g("EventEmitter.Unsubscribe"), g("EventEmitter.UnsubscribeAll")], "EventEmitter.Unsubscribe;UnsubscribeAll"),
+          g("EventEmitter.Close"), SUBSCRIBER]
     if tier != "quick":
         em = [g("EventEmitter.Publish"), g("EventEmitter.Emit"), seq([g("EventEmitter.Subscribe"), g("EventEmitter.On")], "EventEmitter.Subscribe;On"),
-              g("EventEmitter.Unsubscribe"), g("EventEmitter.UnsubscribeAll"), g("EventEmitter.Close"), SUBSCRIBER]
+              g("EventEmitter.Unsubscribe"), g("EventEmitter.UnsubscribeAll"), seq([g("EventEmitter.Close"), g("EventEmitter.Close")], "EventEmitter.Close;Close"), SUBSCRIBER]
     scn.append(("emitter", em))
-    dd = [g("Database.Set"), seq([g("Database.Get"), g("Database.Del")], "Database.Get;Del"), g("Database.Iterate"),
-          seq([g("Database.Snapshot"), g("Database.RestoreSnapshot")], "Database.Snapshot;RestoreSnapshot")]
+    dd = [seq([g("Database.Set"), g("Database.Has")], "Database.Set;Has"), seq([g("Database.Get"), g("Database.Del")], "Database.Get;Del"),
+          seq([g("Database.Iterate"), g("Database.Range")], "Database.Iterate;Range"),
+          seq([g("Database.Snapshot"), g("Database.RestoreSnapshot"), g("Database.Commit")], "Database.Snapshot;RestoreSnapshot;Commit")]
     if tier != "quick":
-        dd += [seq([g("Database.Has"), g("Database.Range"), g("Database.WithPrefix")], "Database.Has;Range;WithPrefix"),
+        dd += [seq([g("Database.WithPrefix"), g("Database.Range")], "Database.WithPrefix;Range"),
                seq([g("Database.DeleteSnapshot"), g("Database.Commit")], "Database.DeleteSnapshot;Commit")]
     scn.append(("diffdb", dd))
     return scn, missing
@@ -239,7 +287,7 @@ def model_check(ctx, scns):
         mod = "MCLocks_" + re.sub(r"[^A-Za-z0-9]", "_", name)
         text = "---- MODULE %s ----\nEXTENDS Locks\n\\* generated from the lock programs extracted from %s\n\\* processes: %s\nProgDef ==\n%s\n====\n" % (
             mod, common.REPO, ", ".join(p["name"] for p in procs), tla_prog(procs))
-        return job, ctx.tlc(mod, "Locks_" + prop, workers=1, timeout=300, files={mod + ".tla": text})
+        return job, ctx.tlc(mod, "Locks_" + prop, workers=1, timeout=900, files={mod + ".tla": text})
 
     def record(job, r):
         name, procs, prop = job
@@ -359,6 +407,9 @@ def race_event_key(ev, idx, predicted):
     return "unmodelled:race:" + "|".join(names)
 
 
+WAIT_STATES = {"chan receive": "chan-receive", "select": "select", "sync.Cond.Wait": "cond-wait"}
+
+
 def blocked_keys(scn, dl, ext):
     """site keys of an observed deadlock from the blocked goroutines' stacks (frames innermost first)"""
     keys = {}
@@ -375,6 +426,11 @@ def blocked_keys(scn, dl, ext):
             run.append(f)
         if b["state"] == "chan send":
             keys["deadlock:%s:send-under-lock" % inner["fn"]] = dict(stack=fr)
+            continue
+        wait = next((w for w in WAIT_STATES if b["state"].startswith(w)), None)
+        if wait:
+            # stuck in a channel receive / select / condition wait with a method of an anchored type innermost
+            keys["deadlock:%s:%s" % (re.sub(r"(\.func\d+)+$", "", inner["fn"]), WAIT_STATES[wait])] = dict(stack=fr, count=b["count"])
             continue
         if len(run) < 2:
             continue
@@ -397,22 +453,61 @@ def blocked_keys(scn, dl, ext):
     return keys
 
 
+def driver_crash(stderr):
+    """The stress driver was killed by a panic / fatal error on a goroutine that the code under test started (the driver can
+    only recover its own goroutines).  When the first frame of the crashing goroutine that is not the Go runtime lies in a
+    source file of lisk-engine, that is behaviour of the real code: -> (scenario, key, message, site), else None.  (Closures
+    of inlined functions carry the CALLER's name, e.g. main.scnServe.(*Syncer).Handle...func3.1: the file decides.)"""
+    m = re.search(r"^(panic: [^\n]*|fatal error: [^\n]*)", stderr, re.M)
+    if not m:
+        return None
+    scn = (re.findall(r"C20-SCENARIO (\S+) begin", stderr[:m.start()]) or ["?"])[-1]
+    g = re.search(r"goroutine \d+[^\n]*\[running\]:\n((?:.+\n?)+)", stderr[m.end():])
+    if not g:
+        return None
+    lines = g.group(1).split("\n")
+    repo = os.path.realpath(common.REPO).rstrip("/") + "/"
+    for i in range(len(lines) - 1):
+        loc = re.match(r"\t(\S+):(\d+)", lines[i + 1])
+        if lines[i].startswith("\t") or not loc or lines[i].startswith(("runtime.", "panic(", "created by ")):
+            continue
+        path = os.path.realpath(loc.group(1))
+        if "/harness/" in path or not path.startswith(repo):
+            return None    # the crash is the driver's own
+        fn = lines[i].rsplit("(", 1)[0] if lines[i].endswith(")") else lines[i]
+        fn = fn.rsplit("/", 1)[-1]                                   # sync.(*Syncer).X  |  main.scnServe.(*Syncer).X.func3.1
+        fn = re.sub(r"^main\.\w+\.", "", fn)
+        fn = re.sub(r"^\w+\.(?=\(|[A-Za-z])", "", fn, count=1) if not fn.startswith("(") else fn
+        fn = re.sub(r"(\.func\d+|\.\d+|\.gowrap\d+)+$", "", fn)
+        key = "crash:%s.%s" % (os.path.dirname(path[len(repo):]), fn)
+        return scn, key, m.group(1), "%s:%s" % (path[len(repo):], loc.group(2))
+    return None
+
+
 def stress(ctx, binp, scns, secs, race, seed, tag):
     of = ctx.path("c20_%s.json" % tag)
     if os.path.exists(of):
         os.remove(of)
-    env = {"VERIF_SEED": str(seed)}
+    env = {"VERIF_SEED": str(seed), "VERIF_C20_SIZES": ",".join(str(n) for n in BULK_SIZES.get(ctx.tier, BULK_SIZES["quick"]))}
     if race:
         env["GORACE"] = "exitcode=0"
-    p = ctx.run(["timeout", str(int(len(scns) * (secs + 12) + 60)), binp, of, ",".join(scns), str(secs), "3"], env=env,
-                timeout=len(scns) * (secs + 12) + 90)
+    budget = len(scns) * (secs + 25) + 120   # generous: every race report costs the -race build a noticeable fraction of a second
+    p = ctx.run(["timeout", str(int(budget)), binp, of, ",".join(scns), str(secs), "3"], env=env, timeout=budget + 30)
     if not os.path.exists(of):
+        races = parse_races(p.stderr) if race else []
+        crash = driver_crash(p.stderr)
+        if crash:
+            log("[c20] %s: the driver was killed inside lisk-engine: %s at %s (scenario %s)" % (tag, crash[2], crash[3], crash[0]))
+            return [], races, crash
+        if races:
+            # the driver did not finish (killed by the time limit or by the runtime), but what the race detector reported until
+            # then are observations on the real code
+            log("[c20] %s: driver did not finish (rc=%d); %d race reports parsed from its output" % (tag, p.returncode, len(races)))
+            return [], races, None
         raise Inconclusive("stress driver (%s) died (rc=%d): %s" % (tag, p.returncode, p.stderr[-1500:]))
-    res = json.load(open(of))
-    for s in res:
-        if s.get("harness_error"):
-            raise Inconclusive("stress driver set-up error in %s: %s" % (s["name"], s["harness_error"]))
-    return res, (parse_races(p.stderr) if race else [])
+    # set-up errors of single scenarios are returned, not raised: what was OBSERVED on the real code in the same run (failures,
+    # deadlocks, panics, race reports) is evaluated first and wins over "too short" / "set-up failed"
+    return json.load(open(of)), (parse_races(p.stderr) if race else []), None
 
 
 # ------------------------------------------------------------------------------------------------ driver
@@ -444,7 +539,7 @@ def run(ctx):
     idx = op_index(ext)
     observed = {}   # key -> dict(what, replay)
     totals = dict(ops=0, bulk_calls=0, bulk_items=0, races_parsed=0, deadlocks=0, scenario_runs=0)
-    samples, notes = [], {}
+    samples, notes, setup_errors = [], {}, []
 
     def observe(key, what, replay):
         if key not in predicted and not key.startswith("unmodelled:"):
@@ -455,8 +550,13 @@ def run(ctx):
         seed = ctx.seed + 100 * rnd
         for race, binp, s in ((False, bin_n, secs), (True, bin_r, rsecs)):
             tag = "%s%d" % ("race" if race else "normal", rnd)
-            res, races = stress(ctx, binp, scn_names, s, race, seed, tag)
+            res, races, crash = stress(ctx, binp, scn_names, s, race, seed, tag)
+            if crash:
+                observe(crash[1], "scenario %s (%s build): %s at %s: the code under test kills the process (a goroutine it started itself)" % (
+                    crash[0], "race" if race else "normal", crash[2], crash[3]), dict(scenario=crash[0], seed=seed, seconds=s, build="race" if race else "normal"))
             for sc in res:
+                if sc.get("harness_error"):
+                    setup_errors.append("%s (%s build): %s" % (sc["name"], "race" if race else "normal", sc["harness_error"]))
                 totals["scenario_runs"] += 1
                 totals["ops"] += sum(sc["ops"].values())
                 for k, v in sc["counts"].items():
@@ -496,6 +596,9 @@ def run(ctx):
                                                               " failures=%s" % sorted(set(f["key"] for f in sc["failures"])) if sc["failures"] else "") for sc in res)
                                       + (" races=%d" % len(races) if race else "")))
 
+    if os.environ.get("VERIF_EXPERIMENTAL") == "1" and not ctx.replay:
+        experimental(ctx, bin_n, secs, observe, notes)
+
     not_reproduced = sorted(k for k in predicted if k not in observed)
     for k in ([] if ctx.replay else not_reproduced):
         log("INCONCLUSIVE-NOTE property=C20: TLC predicts %s (scenario %s, %s) but the stress driver did not reproduce it on the real code within the budget - no verdict"
@@ -512,11 +615,25 @@ def run(ctx):
         if not ctx.violations:
             raise Inconclusive(msg)
         log("INCONCLUSIVE-NOTE property=C20: " + msg)
-    if not ctx.violations and (totals["ops"] < 1000 or totals["bulk_calls"] < 100 and not ctx.replay):
-        raise Inconclusive("stress driver performed too few operations: vacuous (%s)" % totals)
+    if not ctx.violations:
+        # only now: nothing was observed, so a scenario that could not be set up or did not do its work makes the run inconclusive
+        if setup_errors:
+            raise Inconclusive("stress driver set-up error in " + "; ".join(setup_errors[:4]))
+        if totals["ops"] < 1000 or totals["bulk_calls"] < 100 and not ctx.replay:
+            raise Inconclusive("stress driver performed too few operations: vacuous (%s)" % totals)
+        short = ["%s.%s=%d (< %d)" % (sc, c, notes.get("%s.%s" % (sc, c), 0), m) for (sc, c), m in sorted(GUARDS.items())
+                 if sc in scn_names and notes.get("%s.%s" % (sc, c), 0) < m]
+        short += ["bulk.bulk_size:%d never requested" % n for n in BULK_SIZES.get(ctx.tier, BULK_SIZES["quick"])
+                  if "bulk" in scn_names and not notes.get("bulk.bulk_size:%d" % n)]
+        if short:
+            raise Inconclusive("a sub-scenario never happened in this run (vacuous): " + "; ".join(short[:8]))
+    elif setup_errors:
+        log("INCONCLUSIVE-NOTE property=C20: set-up errors next to the observed violations: " + "; ".join(setup_errors[:4]))
     cov = dict(traces_validated_against_impl=totals["scenario_runs"], samples=samples, operations_performed=totals["ops"],
                bulk_lookup_calls=totals["bulk_calls"], bulk_lookup_items_checked=totals["bulk_items"], races_parsed=totals["races_parsed"],
                deadlocks_observed=totals["deadlocks"], extracted_programs=len(ext["programs"]),
+               scenarios=scn_names, bulk_sizes=BULK_SIZES.get(ctx.tier, BULK_SIZES["quick"]),
+               guards={"%s.%s" % k: dict(minimum=m, seen=notes.get("%s.%s" % k, 0)) for k, m in sorted(GUARDS.items()) if k[0] in scn_names},
                tlc_scenarios=table, predicted=sorted(predicted), predicted_not_reproduced=not_reproduced, observations=notes,
                extraction_unknown={n: p["unknown"] for n, p in ext["programs"].items() if p["unknown"]}, exhaustive=True,
                rule="TLC explores every interleaving of the extracted lock programs of each scenario (3 invariants each); the stress driver runs "
@@ -529,12 +646,55 @@ def run(ctx):
         "GetLastBlockHeader overlapping a block removal may return 'data was not found' (two separate database reads); counted in observations, not a violation",
         "blockSyncer.Sync's collector (a local slice) is observable on the real code only through the race detector (scenario sync: a fresh node "
         "synchronising with two connected in-process peers); a lost NodeInfo cannot be observed from outside and stays under predicted_not_reproduced",
-        "3 validators round robin, toy application, writer cycle add,add,add,remove,remove; 8 readers"])
+        "3 validators round robin, toy application, writer cycle add,add,add,remove,remove; 8 readers",
+        "the -evict and serve scenarios use a chain forged by one validator of three (nothing is finalized, so a burst can remove as many blocks as "
+        "the cache holds minus one); removing MORE than the cache holds (Chain.PrepareCache under readers) and getBlocksFromId for a tip that is "
+        "being removed are red on the unchanged tree and run only with VERIF_EXPERIMENTAL=1 (keys tip:missing-during-cache-reload:*, "
+        "unbounded-allocation:getBlocksFromId:removed-tip)",
+        "freshness of a tip, retrievability of the tip by id, exactly-once delivery of events, release of subscribers by Close, iteration order of a "
+        "view, Size() and Cleanup effects of the certificate pool are reported as observations (note_*), not judged: the statement is silent about them",
+        "a second copy of a commit in the pool is judged only when the pool keeps one copy per block and validator in sequential use (probed at run time)"])
+
+
+def experimental(ctx, binp, secs, observe, notes):
+    """VERIF_EXPERIMENTAL=1: sub-checks that are red on the unchanged tree.  The -evict scenarios switch themselves (the
+    driver reads the variable); here: getBlocksFromId for the id of the tip while the tip is being removed.  The handler
+    reads the tip a second time after it has found the requested block; when the block was removed in between,
+    GetBlocksBetweenHeight(h+1, h-1) allocates make([]*Block, uint32(to-from+1)) = 4 294 967 295 pointers (32 GiB).  The
+    process therefore runs with a limited address space and dies inside lisk-engine instead of taking the memory."""
+    import shutil
+    if not shutil.which("prlimit"):
+        log("INCONCLUSIVE-NOTE property=C20: experimental scenario serve-volatile skipped (prlimit not available)")
+        return
+    of = ctx.path("c20_volatile.json")
+    if os.path.exists(of):
+        os.remove(of)
+    p = ctx.run(["timeout", str(int(secs + 60)), "prlimit", "--as=6000000000", binp, of, "serve-volatile", str(secs), "3"], timeout=secs + 90)
+    err = p.stderr or ""
+    replay = dict(scenario="serve-volatile", seed=ctx.seed, seconds=secs, build="normal", address_space_limit=6000000000)
+    if not os.path.exists(of):
+        m = re.search(r"(fatal error: [^\n]*|panic: [^\n]*)", err)
+        if m and "GetBlocksBetweenHeight" in err and re.search(r"out of memory|makeslice|cannot allocate", err):
+            size = re.search(r"cannot allocate (\d+)-byte block", err)
+            observe("unbounded-allocation:getBlocksFromId:removed-tip",
+                    "scenario serve-volatile: getBlocksFromId(id of the tip) while the writer removes the tip: DataAccess.GetBlocksBetweenHeight is called with "
+                    "from > to + 1 and allocates %s bytes (%s); with an address space of 6 GB the process dies inside lisk-engine" % (size.group(1) if size else "?", m.group(1)), replay)
+            ctx.real_panic = None
+        else:
+            log("INCONCLUSIVE-NOTE property=C20: experimental scenario serve-volatile died without a readable reason: %s" % err[-300:])
+        return
+    for sc in json.load(open(of)):
+        for k, v in sc["counts"].items():
+            if not k.startswith("fail:"):
+                notes["%s.%s" % (sc["name"], k)] = notes.get("%s.%s" % (sc["name"], k), 0) + v
+        for f in sc["failures"]:
+            observe(f["key"], "scenario %s: %s" % (sc["name"], f["what"]), replay)
 
 
 def control(ctx):
     """non-vacuity of the interpreter: the control programs of Locks.tla must behave as documented"""
-    expect = {("P1", "deadlock"): True, ("P2", "deadlock"): False, ("P2", "race"): False, ("P3", "race"): True, ("P3", "once"): True, ("P4", "once"): False}
+    expect = {("P1", "deadlock"): True, ("P2", "deadlock"): False, ("P2", "race"): False, ("P3", "race"): True, ("P3", "once"): True, ("P4", "once"): False,
+              ("P5", "deadlock"): False, ("P5", "race"): False, ("P6", "race"): True, ("P6", "deadlock"): False, ("P7", "deadlock"): True}
     for (pn, prop), viol in expect.items():
         cfg = ctx.path("Locks_control_%s_%s.cfg" % (pn, prop))
         open(cfg, "w").write(open(os.path.join(common.SPEC, "cfg", "Locks_%s.cfg" % prop)).read().replace("ProgDef", pn))
